@@ -83,6 +83,10 @@ theorem inv_names (p : Params) (s : St) (fs : FS) (h : QInv p s fs) : Names fs :
 theorem weak_of_inv (p : Params) (s : St) (fs : FS) (h : QInv p s fs) : Weak p s fs :=
   ⟨inv_todo p s fs h, inv_names p s fs h⟩
 
+theorem weak_of_leftover (p : Params) (s : St) (fs : FS) (h : Leftover fs) : Weak p s fs := by
+  obtain ⟨a, b, c⟩ := h
+  exact ⟨fun ht => by simp [a] at ht, fun ht => by simp [a] at ht, b, c⟩
+
 theorem inv_init (p : Params) : QInv p {} {} := by simp [QInv, N]
 
 theorem cleanupFrom_inv (p : Params) (s : St) (fs : FS) (c : Nat) (hc : c ≠ 0)
@@ -343,14 +347,70 @@ theorem step_inv (p : Params) (s s' : St) (fs : FS) (e : Ev)
         · simp [QInv, apply, Leftover, hc, a, b, d]
         · simp [e, QInv, apply, N, hc, a, b, d]
       · cases hacc
+  | signal g =>
+    have hw := weak_of_inv p s fs hinv
+    simp only [accept] at hacc
+    split at hacc
+    · cases hacc
+    · cases hacc
+    · cases hacc
+    · cases hacc
+      have hg : sigCode g = 52 ∨ sigCode g = 81 := by cases g <;> simp [sigCode]
+      simp only [QInv, apply]
+      exact ⟨hg, by simpa [Weak, Queued, EnvOk] using hw⟩
   | exit code =>
     simp only [accept] at hacc
     split at hacc
-    · rename_i c hpc
+    · -- `die(c)` after `cleanup()` or from a failing call
+      rename_i c hpc
       split at hacc
       · rename_i hcode; cases hacc; subst hcode
-        simp [QInv, hpc] at hinv
-        simpa [QInv, apply, Queued, EnvOk] using hinv
+        simp only [QInv, hpc] at hinv
+        simp only [QInv, apply]
+        by_cases h0 : code = 0
+        · simp only [h0, if_true] at hinv ⊢
+          simpa [Queued, EnvOk] using hinv
+        · simp only [h0, if_false] at hinv ⊢
+          split
+          · have := weak_of_leftover p s fs hinv
+            simpa [Weak, Queued, EnvOk] using this
+          · exact hinv
+      · cases hacc
+    · -- the signal handlers
+      rename_i c hpc
+      split at hacc
+      · rename_i hcode; cases hacc; subst hcode
+        simp only [QInv, hpc] at hinv
+        obtain ⟨hc, hw⟩ := hinv
+        have h0 : code ≠ 0 := by omega
+        simp only [QInv, apply, h0, hc, if_true, if_false]
+        simpa [Weak, Queued, EnvOk] using hw
+      · cases hacc
+    · -- 61 / 62 / 51 before `alarm`
+      rename_i hpc
+      simp [QInv, hpc] at hinv
+      obtain ⟨⟨a, b, c, d⟩, _⟩ := hinv
+      split at hacc
+      · rename_i hcode; cases hacc
+        have h0 : code ≠ 0 := by omega
+        have h1 : ¬ (code = 52 ∨ code = 81) := by omega
+        simp [QInv, apply, Leftover, a, b, c, d, h0, h1]
+      · cases hacc
+    · -- 51 in `pidopen`
+      rename_i k hpc
+      simp [QInv, hpc] at hinv
+      obtain ⟨⟨a, b, c, d⟩, _⟩ := hinv
+      split at hacc
+      · cases hacc
+        simp [QInv, apply, Leftover, a, b, c, d]
+      · cases hacc
+    · -- 51 in `fnnum`: the pid file stays
+      rename_i hpc
+      simp [QInv, hpc] at hinv
+      obtain ⟨⟨a, b, c, d⟩, _⟩ := hinv
+      split at hacc
+      · rename_i hcode; cases hacc
+        simp [QInv, apply, Leftover, a, b, c, d]
       · cases hacc
     · rename_i hpc
       simp [QInv, hpc] at hinv
@@ -437,6 +497,7 @@ def CodeInv (p : Params) (s : St) : Prop :=
   | .clIntdUnlink c => c ≠ 91 ∧ c ≠ 11
   | .clMessTrunc c => c ≠ 91 ∧ c ≠ 11
   | .clMessUnlink c => c ≠ 91 ∧ c ≠ 11
+  | .handler c => c ≠ 91 ∧ c ≠ 11
   | .exited c => (c = 91 → (scan (p.env.take s.envRead)).1 = .bad) ∧ (c = 11 → (scan (p.env.take s.envRead)).1 = .long)
   | _ => True
 
@@ -497,12 +558,30 @@ theorem step_code (p : Params) (s s' : St) (e : Ev) (hinv : CodeInv p s) (hacc :
     · split at hacc
       · cases hacc; cases intr <;> first | exact cleanupFrom_code p s 54 (by decide) (by decide) | simp_all [CodeInv]
       · cases hacc
+  | signal g =>
+    simp only [accept] at hacc
+    split at hacc <;> cases hacc
+    cases g <;> simp [CodeInv, sigCode]
   | exit code =>
     simp only [accept] at hacc
     split at hacc
     · rename_i c hpc
       split at hacc
       · cases hacc; simp_all [CodeInv]
+      · cases hacc
+    · rename_i c hpc
+      split at hacc
+      · cases hacc; simp_all [CodeInv]
+      · cases hacc
+    · split at hacc
+      · rename_i hcode; cases hacc
+        simp only [CodeInv]; omega
+      · cases hacc
+    · split at hacc
+      · cases hacc; simp [CodeInv]
+      · cases hacc
+    · split at hacc
+      · rename_i hcode; cases hacc; simp [CodeInv]
       · cases hacc
     · split at hacc
       · split at hacc <;> try (cases hacc)
@@ -539,5 +618,249 @@ theorem run_code (p : Params) : ∀ (evs : List Ev) (s s' : St),
     | some s1 =>
       simp [h1] at ha
       exact run_code p es s1 s' (step_code p s s1 e h h1) ha
+
+end Nq.Lemmas.QI
+
+namespace Nq.Lemmas.QI
+open Nq Nq.QueueInject
+
+/-! ### The forward direction: without a failing call the exit code is the documented verdict -/
+
+/-- in a run without `Faulty` events: once the envelope has been judged, the code the program is
+going to exit with is the documented one for the WHOLE envelope stream supplied -/
+def FwdInv (p : Params) (s : St) : Prop :=
+  match s.pc with
+  | .linkTodo => (scan p.env).1 = .done
+  | .trig => (scan p.env).1 = .done
+  | .trigW => (scan p.env).1 = .done
+  | .trigC => (scan p.env).1 = .done
+  | .clIntdTrunc c => c = docCode (scan p.env).1
+  | .clIntdUnlink c => c = docCode (scan p.env).1
+  | .clMessTrunc c => c = docCode (scan p.env).1
+  | .clMessUnlink c => c = docCode (scan p.env).1
+  | .dying c => c = docCode (scan p.env).1
+  | .exited c => c = docCode (scan p.env).1
+  | .handler _ => False
+  | _ => True
+
+theorem cleanupFrom_fwd (p : Params) (s : St) (c : Nat) (h : c = docCode (scan p.env).1) : FwdInv p (cleanupFrom s c) := by
+  unfold cleanupFrom
+  split
+  · simpa [FwdInv] using h
+  · split <;> simpa [FwdInv] using h
+
+theorem step_fwd (p : Params) (s s' : St) (e : Ev) (hinv : FwdInv p s) (hf : Faulty e = false)
+    (hacc : accept p s e = some s') : FwdInv p s' := by
+  cases e with
+  | alarm n => simp only [accept] at hacc; split at hacc <;> cases hacc; simp [FwdInv]
+  | openPid seq ok =>
+    simp only [accept] at hacc
+    split at hacc
+    · rename_i k hpc
+      split at hacc
+      · cases hacc
+      · rename_i hseq
+        split at hacc
+        · cases hacc; simp [FwdInv]
+        · rename_i hok
+          split at hacc
+          · cases hacc; simp [FwdInv]
+          · rename_i hk
+            have hseq' : seq = k := by simpa using hseq
+            have : (9 ≤ seq) := by omega
+            simp [Faulty, hok, this] at hf
+    · cases hacc
+  | fstatPid ok =>
+    simp only [accept] at hacc; split at hacc <;> cases hacc
+    cases ok <;> simp_all [FwdInv, Faulty]
+  | linkMess ok =>
+    simp only [accept] at hacc; split at hacc <;> cases hacc
+    cases ok <;> simp_all [FwdInv, Faulty]
+  | unlinkPid ok =>
+    simp only [accept] at hacc; split at hacc <;> cases hacc
+    cases ok <;> simp_all [FwdInv, Faulty]
+  | read fd n =>
+    simp only [accept] at hacc
+    split at hacc
+    · split at hacc
+      · rename_i h; cases hacc; simp [FwdInv, h.1]
+      · cases hacc
+    · split at hacc
+      · split at hacc
+        · rename_i h
+          split at hacc
+          · rename_i hn
+            have hlen : s.envRead = p.env.length := h.2.2 hn
+            have htake : p.env.take s.envRead = p.env := by rw [hlen]; exact List.take_length
+            rw [htake] at hacc
+            split at hacc
+            · cases hacc
+            · cases hacc
+            · cases hacc
+            · rename_i hnd hnb hnl
+              cases hacc
+              apply cleanupFrom_fwd
+              cases hs : (scan p.env).1 <;> simp_all [docCode]
+          · cases hacc; simp [FwdInv, h.1]
+        · cases hacc
+      · cases hacc
+  | readErr fd intr =>
+    have hi : intr = true := by simpa [Faulty] using hf
+    subst hi
+    simp only [accept] at hacc
+    split at hacc
+    · cases hacc; exact hinv
+    · split at hacc
+      · cases hacc; exact hinv
+      · cases hacc
+  | write f bs =>
+    cases f <;> simp only [accept] at hacc <;> split at hacc <;> cases hacc <;> rename_i h <;> simp [FwdInv, h.1]
+  | writeErr f intr =>
+    have hi : intr = true := by simpa [Faulty] using hf
+    subst hi
+    cases f <;> simp only [accept] at hacc <;> split at hacc <;> cases hacc <;> exact hinv
+  | fsync f ok =>
+    have hi : ok = true := by simpa [Faulty] using hf
+    subst hi
+    cases f with
+    | mess => simp only [accept] at hacc; split at hacc <;> cases hacc; simp [FwdInv]
+    | intd =>
+      simp only [accept] at hacc
+      split at hacc
+      · rename_i h; cases hacc
+        simp only [FwdInv, if_true]
+        rw [scan_take p.env s.envRead (Or.inl h.2.1)]; exact h.2.1
+      · cases hacc
+  | openIntd ok =>
+    simp only [accept] at hacc; split at hacc <;> cases hacc
+    cases ok <;> simp_all [FwdInv, Faulty]
+  | linkTodo ok =>
+    have hi : ok = true := by simpa [Faulty] using hf
+    subst hi
+    simp only [accept] at hacc
+    split at hacc
+    · rename_i hpc; cases hacc
+      simpa [FwdInv, hpc] using hinv
+    · cases hacc
+  | trigOpen ok =>
+    simp only [accept] at hacc
+    split at hacc
+    · rename_i hpc; cases hacc
+      have hd : (scan p.env).1 = .done := by simpa [FwdInv, hpc] using hinv
+      cases ok <;> simp [FwdInv, hd, docCode]
+    · cases hacc
+  | trigWrite =>
+    simp only [accept] at hacc
+    split at hacc
+    · rename_i hpc; cases hacc
+      simpa [FwdInv, hpc] using hinv
+    · cases hacc
+  | trigClose =>
+    simp only [accept] at hacc
+    split at hacc
+    · rename_i hpc; cases hacc
+      have hd : (scan p.env).1 = .done := by simpa [FwdInv, hpc] using hinv
+      simp [FwdInv, hd, docCode]
+    · cases hacc
+  | ftrunc f ok =>
+    cases f <;> simp only [accept] at hacc <;> split at hacc <;> (try cases hacc) <;> rename_i c hpc <;>
+      simpa [FwdInv, hpc] using hinv
+  | unlinkF f ok =>
+    cases f with
+    | mess =>
+      simp only [accept] at hacc
+      split at hacc
+      · rename_i c hpc; cases hacc
+        simpa [FwdInv, hpc] using hinv
+      · cases hacc
+    | intd =>
+      simp only [accept] at hacc
+      split at hacc
+      · rename_i c hpc; cases hacc
+        have hc : c = docCode (scan p.env).1 := by simpa [FwdInv, hpc] using hinv
+        cases ok
+        · simpa [FwdInv] using hc
+        · by_cases hm : s.madeMess = true <;> simpa [FwdInv, hm] using hc
+      · cases hacc
+  | signal g => simp [Faulty] at hf
+  | exit code =>
+    simp only [accept] at hacc
+    split at hacc
+    · rename_i c hpc
+      split at hacc
+      · rename_i hcode; cases hacc; subst hcode
+        simpa [FwdInv, hpc] using hinv
+      · cases hacc
+    · rename_i c hpc
+      simp [FwdInv, hpc] at hinv
+    · split at hacc
+      · rename_i hcode
+        simp [Faulty] at hf
+        omega
+      · cases hacc
+    · split at hacc
+      · rename_i hcode
+        simp [Faulty, hcode.2] at hf
+      · cases hacc
+    · split at hacc
+      · rename_i hcode
+        simp [Faulty, hcode] at hf
+      · cases hacc
+    · split at hacc
+      · rename_i hb
+        split at hacc <;> cases hacc
+        simp only [FwdInv]
+        rw [scan_take p.env s.envRead (Or.inr (Or.inl hb)), hb]; rfl
+      · rename_i hl
+        split at hacc <;> cases hacc
+        simp only [FwdInv]
+        rw [scan_take p.env s.envRead (Or.inr (Or.inr hl)), hl]; rfl
+      · cases hacc
+    · cases hacc
+
+theorem run_fwd (p : Params) : ∀ (evs : List Ev) (s s' : St),
+    FwdInv p s → (∀ e ∈ evs, Faulty e = false) → acceptAll p s evs = some s' → FwdInv p s'
+  | [], s, s', h, _, ha => by simp [acceptAll] at ha; subst ha; exact h
+  | e :: es, s, s', h, hf, ha => by
+    simp only [acceptAll] at ha
+    cases h1 : accept p s e with
+    | none => simp [h1] at ha
+    | some s1 =>
+      simp [h1] at ha
+      exact run_fwd p es s1 s' (step_fwd p s s1 e h (hf e (by simp)) h1) (fun x hx => hf x (by simp [hx])) ha
+
+/-- nothing is accepted after `_exit` -/
+theorem accept_exited (p : Params) (s : St) (c : Nat) (h : s.pc = .exited c) (e : Ev) : accept p s e = none := by
+  cases e with
+  | write f bs => cases f <;> simp [accept, h]
+  | writeErr f i => cases f <;> simp [accept, h]
+  | fsync f ok => cases f <;> simp [accept, h]
+  | ftrunc f ok => cases f <;> simp [accept, h]
+  | unlinkF f ok => cases f <;> simp [accept, h]
+  | read fd n => simp [accept, h]
+  | _ => simp [accept, h]
+
+/-- the entry can become visible only through a successful `link(intd/<n>, todo/<n>)` -/
+theorem todo_needs_link : ∀ (evs : List Ev) (fs : FS), (applyAll fs evs).todoName = true →
+    fs.todoName = true ∨ Ev.linkTodo true ∈ evs
+  | [], fs, h => Or.inl (by simpa [applyAll] using h)
+  | e :: es, fs, h => by
+    simp only [applyAll] at h
+    rcases todo_needs_link es (apply fs e) h with h1 | h1
+    · by_cases he : e = .linkTodo true
+      · right; simp [he]
+      · left
+        cases e with
+        | openPid seq ok => cases ok <;> simpa [apply] using h1
+        | linkMess ok => cases ok <;> simpa [apply] using h1
+        | unlinkPid ok => cases ok <;> simpa [apply] using h1
+        | write f bs => cases f <;> simpa [apply] using h1
+        | fsync f ok => cases f <;> cases ok <;> simpa [apply] using h1
+        | openIntd ok => cases ok <;> simpa [apply] using h1
+        | linkTodo ok => cases ok <;> simp_all [apply]
+        | ftrunc f ok => cases f <;> cases ok <;> simpa [apply] using h1
+        | unlinkF f ok => cases f <;> cases ok <;> simpa [apply] using h1
+        | _ => simpa [apply] using h1
+    · right; simp [h1]
 
 end Nq.Lemmas.QI
